@@ -1,1 +1,1 @@
-from . import T  # noqa: F401
+from . import T, D  # noqa: F401
